@@ -65,3 +65,8 @@ CORPUS += [
     M("state-update-skipped-when-same-power", D, "            self._power_state = res.power_on\n", "            if res.power_on == self._power_state and res.fan_speed == self._fan_speed:\n                return\n            self._power_state = res.power_on\n"),
     M("n-state-update-logged-first", D, "            self._power_state = res.power_on\n", "            changed = res.power_on != self._power_state\n            self._power_state = res.power_on\n            if changed:\n                _LOGGER.debug(\"Power state changed.\")\n", "S"),
 ]
+# round 6 (C11.d): the custom fan speed fallback must catch what FanSpeed(<unknown>) raises
+CORPUS += [
+    M("fan-handler-wrong-exception", D, "                except ValueError:\n                    self._fan_speed = cast(int, res.fan_speed)", "                except TypeError:\n                    self._fan_speed = cast(int, res.fan_speed)"),
+    M("n-fan-handler-wider", D, "                except ValueError:\n                    self._fan_speed = cast(int, res.fan_speed)", "                except (ValueError, TypeError):\n                    self._fan_speed = cast(int, res.fan_speed)", "S"),
+]
